@@ -31,6 +31,10 @@ CLAIMED.update({
     'C13': ('one inductive step per editing operation: arbitrary valid Definition state (all name orders, one symbolic Boolean per cell), real method bodies merge-interpreted, post-state vs list-and-set model by SMT queries', '5 C13'),
     'C14': ('derivations on symbolic-cell definitions vs cell-wise model by SMT, structural + behavioural aliasing checks with follow-up edits; Context<->Definition per table via the solver-driven table partition', '5 C14'),
 })
+CLAIMED.update({
+    'C11': (_TAB + ' (todict/fromdict/fromjson/python-literal round trips incl. raw=True under permutations of the stored order; pickle sentence NOT covered)', '5 C11'),
+    'C15': ('relational symbolic execution: the real generators run on a symbolic table and on its transform (row/column rotation, transpose, duplicated row/column) on the same path, correspondence of the yielded families decided by SMT; metamorphic per-table comparison over the solver-driven table partition', '5 C15'),
+})
 PENDING = {}
 NA = {
     'C12': 'text formats quantify over label strings, encodings, csv dialects and files: code is str methods, %-formatting, '
